@@ -1,4 +1,5 @@
 mod c_pdu;
+mod c_seq;
 mod checks;
 mod clock;
 mod enginef;
@@ -19,6 +20,8 @@ fn lookup(property: &str, check: &str) -> Option<Box<CaseFn>> {
             let prop = c_pdu::prop_of(property)?;
             Some(Box::new(move |rs, nonce, replay| c_pdu::case(prop, false, rs, nonce, replay)))
         }
+        ("C04", "push-programs") => Some(Box::new(c_seq::c04_case)),
+        ("C05", "hostile-frames") => Some(Box::new(c_seq::c05_case)),
         _ => None,
     }
 }
@@ -43,6 +46,8 @@ fn main() {
             let tier = args.get(2).map(|s| s.as_str()).unwrap_or("quick");
             c_pdu::run_property(id, tier, seed, workers)
         }
+        "C04" => c_seq::run_c04(args.get(2).map(|s| s.as_str()).unwrap_or("quick"), seed, workers),
+        "C05" => c_seq::run_c05(args.get(2).map(|s| s.as_str()).unwrap_or("quick"), seed, workers),
         other => {
             eprintln!("unknown property {}", other);
             2
